@@ -334,8 +334,12 @@ func runCheck(o *checkOpts) int {
 		}(i, j)
 	}
 	wg.Wait()
-	if (o.prop == "C12" || o.prop == "") && o.only == "" {
-		results = append(results, w.sharedResults()...)
+	if o.only == "" {
+		for _, r := range w.sharedResults() {
+			if o.prop == "" || hasTag(r.Ob.Tags, o.prop) {
+				results = append(results, r)
+			}
+		}
 	}
 
 	// classify
